@@ -305,8 +305,8 @@ Definition sev_step (thr now : Z) (latest : option Z) (pr : option gpath)
       end
   | SDel q ts =>
       match del_index pr q with
-      | Ok ((k :: _) as p) =>
-          if String.eqb k "meta" then (f, None, false)
+      | Ok p =>
+          if is_meta_path p then (f, None, false)
           else (filter (fun qv => negb (qmatch p (fst qv) && Z.ltb (n_ts (snd qv)) ts)) f,
                 Some ROk, false)
       | _ => (f, None, false)
